@@ -74,8 +74,8 @@ def obligations(tier, seed):
         for i in range(n):
             for par in (2, 3): obs.append(dict(name='tap/n%d/index%d/parity%d' % (n, i, par), kind='tap', n=n, idx=i, parity=par, cost=2 ** n))
     # larger trees: only the spent leaf (and its neighbour) symbolic, the other leaves concrete - the sort order is explored along the proof path
-    for n in (range(5, 13) if tier == 'quick' else list(range(5, 25)) + [32, 33]):
-        for i in range(n):
+    for n in (list(range(5, 9)) + [10, 11, 13] if tier == 'quick' else list(range(5, 25)) + [32, 33]):
+        for i in (range(n) if (tier != 'quick' or n <= 8) else sorted({0, n // 2, n - 2, n - 1})):
             obs.append(dict(name='tap/n%d/index%d/spent-leaf-symbolic' % (n, i), kind='tap', n=n, idx=i, parity=2 + (i & 1), symleaves=[i], cost=n))
     return obs
 
